@@ -10,6 +10,7 @@ import (
 
 	"github.com/hashicorp/hcl-lang/schema"
 	"github.com/hashicorp/hcl/v2"
+	"github.com/zclconf/go-cty/cty"
 )
 
 type Targets []Target
@@ -32,8 +33,48 @@ func (r Targets) Len() int {
 }
 
 func (r Targets) Less(i, j int) bool {
-	return r[i].LocalAddr.String() < r[j].LocalAddr.String() ||
-		r[i].Addr.String() < r[j].Addr.String()
+	// The order has to be a strict weak order which distinguishes
+	// any two different targets, otherwise the result of sorting
+	// depends on the order in which the targets were collected.
+	if li, lj := r[i].LocalAddr.String(), r[j].LocalAddr.String(); li != lj {
+		return li < lj
+	}
+	if ai, aj := r[i].Addr.String(), r[j].Addr.String(); ai != aj {
+		return ai < aj
+	}
+	if c := compareRangePtrs(r[i].RangePtr, r[j].RangePtr); c != 0 {
+		return c < 0
+	}
+	if r[i].ScopeId != r[j].ScopeId {
+		return r[i].ScopeId < r[j].ScopeId
+	}
+	if ti, tj := typeName(r[i].Type), typeName(r[j].Type); ti != tj {
+		return ti < tj
+	}
+	return r[i].Name < r[j].Name
+}
+
+func typeName(typ cty.Type) string {
+	if typ == cty.NilType {
+		return ""
+	}
+	return typ.GoString()
+}
+
+func compareRangePtrs(a, b *hcl.Range) int {
+	switch {
+	case a == nil && b == nil:
+		return 0
+	case a == nil:
+		return -1
+	case b == nil:
+		return 1
+	case a.Filename != b.Filename:
+		return strings.Compare(a.Filename, b.Filename)
+	case a.Start.Byte != b.Start.Byte:
+		return a.Start.Byte - b.Start.Byte
+	}
+	return a.End.Byte - b.End.Byte
 }
 
 func (r Targets) Swap(i, j int) {
